@@ -47,6 +47,11 @@ class HarnessError(Exception):
     pass
 
 
+class ChildTimeout(HarnessError):
+    """The forked child did not finish within the wall watchdog.  For most checks that is a harness
+    error; a check whose property includes termination may turn it into a verdict (on_timeout)."""
+
+
 def _write_all(fd, data):
     view = memoryview(data)
     while view:
@@ -82,7 +87,7 @@ def run_forked(fn, arg, timeout_s=60.0):
             if left <= 0:
                 os.kill(pid, signal.SIGKILL)
                 os.waitpid(pid, 0)
-                raise HarnessError('child exceeded wall watchdog of %ss' % timeout_s)
+                raise ChildTimeout('child exceeded wall watchdog of %ss' % timeout_s)
             rl, _, _ = select.select([r], [], [], left)
             if not rl:
                 continue
@@ -140,7 +145,9 @@ class Zygote(object):
                         break
                     case = pickle.loads(_read_exact(c2z_r, int.from_bytes(hdr, 'big')))
                     try:
-                        out = ('ok', run_forked(check.execute, case, getattr(check, 'run_timeout_s', 60.0)))
+                        tmo = getattr(check, 'hang_timeout_s', 30.0) if case.get('hang_probe') \
+                            else getattr(check, 'run_timeout_s', 60.0)
+                        out = ('ok', run_forked(check.execute, case, tmo))
                     except HarnessError as e:
                         out = ('herr', str(e))
                     data = pickle.dumps(out)
@@ -156,12 +163,15 @@ class Zygote(object):
     def run(self, case):
         data = pickle.dumps(case)
         _write_all(self.w, len(data).to_bytes(4, 'big') + data)
-        deadline = time.monotonic() + getattr(self.check, 'run_timeout_s', 60.0) + 30.0
+        deadline = time.monotonic() + (getattr(self.check, 'hang_timeout_s', 30.0) if case.get('hang_probe')
+                                       else getattr(self.check, 'run_timeout_s', 60.0)) + 30.0
         hdr = _read_exact(self.r, 4, deadline)
         if not hdr:
             raise HarnessError('zygote died')
         kind, val = pickle.loads(_read_exact(self.r, int.from_bytes(hdr, 'big'), deadline))
         if kind == 'herr':
+            if 'exceeded wall watchdog' in val:
+                raise ChildTimeout(val)
             raise HarnessError(val)
         return val
 
@@ -178,7 +188,12 @@ _ZYGOTE = {}
 
 
 def isolated(check, case, timeout_s=None):
-    res = _isolated(check, case, timeout_s)
+    try:
+        res = _isolated(check, case, timeout_s)
+    except ChildTimeout:
+        if not hasattr(check, 'on_timeout'):
+            raise
+        res = check.on_timeout(case, _isolated)      # may re-raise: then it stays a harness error
     if res.get('viol') and hasattr(check, 'confirm'):
         res = check.confirm(case, res, _isolated)
     return res
@@ -186,6 +201,8 @@ def isolated(check, case, timeout_s=None):
 
 def _isolated(check, case, timeout_s=None):
     t = timeout_s or getattr(check, 'run_timeout_s', 60.0)
+    if case.get('hang_probe'):
+        t = getattr(check, 'hang_timeout_s', t)
     if check.isolation == 'fork' or os.environ.get('VERIF_FORCE_FORK'):
         if hasattr(check, 'zygote_init') and check.wants_zygote(case):
             z = _ZYGOTE.get(os.getpid())
@@ -278,6 +295,7 @@ def _worker(check, w, nworkers, tier, seed, max_runs, deadline, keep_digests, on
                 if res2.get('digest') != res.get('digest') or bool(res2.get('viol')) != bool(res.get('viol')):
                     agg.errors.append('run %d: case does not survive a JSON round trip (digest %s vs %s)'
                                       % (i, res.get('digest'), res2.get('digest')))
+            case = res.pop('case_override', None) or case      # a check may hand back a reduced witness
             agg.add(i, case, res, keep_digests, check)
         except HarnessError as e:
             agg.errors.append('run %d: %s' % (i, e))
